@@ -288,7 +288,7 @@ def parseRanges (ts : List Tok) : Res (List Rng × List Tok) :=
     else checkOverlap (prefixDash ts ++ items) r
 
 def astralInRange (r : Rng) : Bool :=
-  r.start.code > 0x10000 || (match r.stop with | some e => decide (e.code > 0x10000) | none => false)
+  r.start.code ≥ 0x10000 || (match r.stop with | some e => decide (e.code ≥ 0x10000) | none => false)
 
 /-! ### Quantifiers -/
 
